@@ -1196,3 +1196,259 @@ Section UpdateRep.
           destruct (Nat.eqb i row_p) eqn:E; [apply Nat.eqb_eq in E; rewrite E|]; ring.
   Qed.
 End UpdateRep.
+
+(* ================================================================================================= the new pivot *)
+(* a triangular system whose right-hand side vanishes beyond rank q' has a solution that vanishes beyond rank q' *)
+Lemma tri_zero_prop r (SF : sfacts r) (x g : nat -> Q) q' :
+  (forall i, (i < f_dim r)%nat -> sumn (f_dim r) (fun j => Ucf r i j * x j) == g i) ->
+  (forall t, (q' < t < f_dim r)%nat -> g (rk r t) == 0) ->
+  forall t, (q' < t < f_dim r)%nat -> x (ck r t) == 0.
+Proof.
+  intros E G.
+  assert (H : forall d t, (f_dim r - t <= d)%nat -> (q' < t < f_dim r)%nat -> x (ck r t) == 0).
+  { induction d as [|d IH]; intros t Hd Ht; [lia|].
+    assert (Ht' : (t < f_dim r)%nat) by lia.
+    pose proof (E (rk r t) (rk_lt r SF t Ht')) as Er. rewrite (G t Ht) in Er.
+    rewrite (sumn_single (f_dim r) (ck r t)) in Er.
+    - pose proof (U_piv r SF t Ht') as Hp.
+      destruct (Qeq_dec (x (ck r t)) 0) as [Z|NZ]; [exact Z|]. exfalso. apply Hp.
+      apply (Qmult_integral_l (x (ck r t))); [exact NZ|]. rewrite Qmult_comm. exact Er.
+    - apply ck_lt; [exact SF|exact Ht'].
+    - intros j Hj Hne. destruct (ck_surj r SF j Hj) as [A B]. set (k := index_of j (f_cperm r)) in *.
+      destruct (Nat.lt_trichotomy k t) as [Hlt|[Heq|Hgt]].
+      + rewrite <- B. rewrite (U_tri r SF k t Hlt Ht'). ring.
+      + exfalso. apply Hne. rewrite <- B, Heq. reflexivity.
+      + rewrite <- B. rewrite (IH k) by lia. ring. }
+  intros t Ht. apply (H (f_dim r) t); lia.
+Qed.
+
+Lemma update_spike_cases r col_p s : sfacts r -> (col_p < f_dim r)%nat ->
+  update_spike r col_p s =
+  if Nat.ltb (spike_rank (f_rperm r) s) (index_of col_p (f_cperm r)) then None
+  else if Qeq_bool (qnth (fst (up_elim r col_p s (rk r (index_of col_p (f_cperm r))) (index_of col_p (f_cperm r))
+                                       (spike_rank (f_rperm r) s))) col_p) 0 then None
+  else Some (up_repr r col_p s (rk r (index_of col_p (f_cperm r))) (index_of col_p (f_cperm r)) (spike_rank (f_rperm r) s)).
+Proof.
+  intros SF Hcol. unfold update_spike.
+  destruct (U_head r SF _ (p_lt r col_p SF Hcol)) as (piv & rest & E). rewrite (ck_p r col_p SF Hcol) in E. rewrite E.
+  reflexivity.
+Qed.
+
+Section Pivot.
+  Variable r : repr.
+  Variable col_p : nat.
+  Variable s : sparse.
+  Hypothesis SF : sfacts r.
+  Local Notation n := (f_dim r).
+  Hypothesis Hcol : (col_p < n)%nat.
+  Hypothesis Hs : ind_lt n s = true.
+  Local Notation p := (index_of col_p (f_cperm r)).
+  Local Notation q := (spike_rank (f_rperm r) s).
+  Local Notation row_p := (rk r p).
+  Variable a : vec.
+  Hypothesis Hsp : forall i, (i < n)%nat -> coefAt s i == qnth (spike r a) i.
+  Local Notation x := (qnth (usolve r (spike r a))).
+
+  Lemma x_high t : (q < t < n)%nat -> x (ck r t) == 0.
+  Proof.
+    apply (tri_zero_prop r SF x (qnth (spike r a)) q).
+    - intros i Hi. apply usolve_spec; assumption.
+    - intros t' Ht'. rewrite <- (Hsp _ (rk_lt r SF t' ltac:(lia))). apply (spike_rank_zero (f_rperm r)).
+      rewrite (rk_index r SF t') by lia. lia.
+  Qed.
+
+  (* rank_r < rank_p: the spike has no entry from rank_p on, component col_p of B^-1 a vanishes *)
+  Lemma x_low_rank : (q < p)%nat -> x col_p == 0.
+  Proof.
+    intros H. rewrite <- (ck_p r col_p SF Hcol). apply x_high. split; [exact H|exact (p_lt r col_p SF Hcol)].
+  Qed.
+
+  Hypothesis Hpq : (p <= q)%nat.
+  Local Notation Ut := (up_Ut r col_p s).
+  Local Notation Ue := (up_Ue r col_p s row_p).
+  Local Notation w := (fst (up_elim r col_p s row_p p q)).
+  Local Notation eta := (snd (up_elim r col_p s row_p p q)).
+  Local Notation z := (fun j => if Nat.eqb j col_p then - (1) else x j).
+
+  Lemma Ut_z i : (i < n)%nat -> sumn n (fun j => Ut i j * z j) == - (Ucf r i col_p * x col_p).
+  Proof.
+    intros Hi.
+    transitivity (sumn n (fun j => Ucf r i j * x j + (if Nat.eqb col_p j then 1 else 0) * (- coefAt s i - Ucf r i col_p * x col_p))).
+    - apply sumn_ext. intros j Hj. unfold up_Ut. rewrite (Nat.eqb_sym col_p j).
+      destruct (Nat.eqb_spec j col_p) as [->|_]; ring.
+    - rewrite sumn_add. rewrite (usolve_spec r SF (spike r a) i Hi).
+      rewrite (sumn_delta_l n col_p (fun _ => - coefAt s i - Ucf r i col_p * x col_p) Hcol). rewrite (Hsp i Hi). ring.
+  Qed.
+
+  (* new pivot = (B^-1 a)_col_p * old pivot *)
+  Theorem new_pivot : qnth w col_p == Ucf r row_p col_p * x col_p.
+  Proof.
+    pose proof (q_lt r col_p s SF Hcol Hs Hpq) as Hq. pose proof (p_lt r col_p SF Hcol) as Hp.
+    destruct (elim_facts r col_p s SF Hcol Hs Hpq) as (R & _ & _ & _).
+    assert (E1 : sumn n (fun j => (qnth w j + sumn n (fun i => coefAt eta i * Ue i j)) * z j) == - (Ucf r row_p col_p * x col_p)).
+    { rewrite <- (Ut_z row_p (rk_lt r SF p Hp)). apply sumn_ext. intros j Hj. rewrite (R j Hj). reflexivity. }
+    assert (E2 : sumn n (fun j => sumn n (fun i => coefAt eta i * Ue i j) * z j) == 0).
+    { transitivity (sumn n (fun i => coefAt eta i * sumn n (fun j => Ue i j * z j))).
+      - transitivity (sumn n (fun j => sumn n (fun i => Ue i j * coefAt eta i) * z j)).
+        + apply sumn_ext. intros j _. apply Qmult_comp; [|reflexivity]. apply sumn_ext. intros i _. ring.
+        + symmetry. apply (dot_swap n n (fun i j => Ue i j) (coefAt eta) z).
+      - apply sumn_0. intros i Hi. destruct (rk_surj r SF i Hi) as [A Bi]. set (t := index_of i (f_rperm r)) in *.
+        destruct (Nat.lt_ge_cases p t) as [H1|H1]; [destruct (Nat.le_gt_cases t q) as [H2|H2]|].
+        + assert (Ez : sumn n (fun j => Ue i j * z j) == 0).
+          { rewrite <- Bi.
+            transitivity (sumn n (fun j => Ut (rk r t) j * z j)).
+            - apply sumn_ext. intros j _. rewrite (Ue_off r col_p s) by (apply (rk_ne_row r col_p SF Hcol); lia). reflexivity.
+            - rewrite (Ut_z (rk r t) (rk_lt r SF t A)). rewrite <- (ck_p r col_p SF Hcol) at 1.
+              rewrite (U_tri r SF p t H1 A). ring. }
+          rewrite Ez. ring.
+        + rewrite (eta_support r col_p s SF Hcol Hs Hpq i Hi) by (fold t; lia). ring.
+        + rewrite (eta_support r col_p s SF Hcol Hs Hpq i Hi) by (fold t; lia). ring. }
+    assert (E3 : sumn n (fun j => qnth w j * z j) == - qnth w col_p).
+    { rewrite (sumn_single n col_p); [rewrite Nat.eqb_refl; ring|exact Hcol|].
+      intros j Hj Hne. destruct (col_rank' r col_p s SF Hcol Hs Hpq j Hj) as (k & Hk & ->).
+      destruct (Nat.lt_trichotomy k q) as [Hlt|[Heq|Hgt]].
+      - rewrite (w_low r col_p s SF Hcol Hs Hpq k Hlt). ring.
+      - exfalso. apply Hne. rewrite Heq, sigma_q by exact Hpq. apply (ck_p r col_p SF Hcol).
+      - rewrite sigma_high in * by lia. destruct (Nat.eqb_spec (ck r k) col_p); [contradiction|].
+        rewrite (x_high k) by lia. ring. }
+    assert (E4 : sumn n (fun j => (qnth w j + sumn n (fun i => coefAt eta i * Ue i j)) * z j) ==
+                 sumn n (fun j => qnth w j * z j) + sumn n (fun j => sumn n (fun i => coefAt eta i * Ue i j) * z j)).
+    { rewrite <- sumn_add. apply sumn_ext. intros j _. ring. }
+    rewrite E4, E2, E3 in E1. lra.
+  Qed.
+
+  Lemma pivot_zero_x : qnth w col_p == 0 -> x col_p == 0.
+  Proof.
+    intros H. rewrite new_pivot in H. pose proof (U_piv r SF p (p_lt r col_p SF Hcol)) as Hp.
+    rewrite (ck_p r col_p SF Hcol) in Hp.
+    destruct (Qeq_dec (x col_p) 0) as [Z|NZ]; [exact Z|]. exfalso. apply Hp.
+    apply (Qmult_integral_l (x col_p)); [exact NZ|]. rewrite Qmult_comm. exact H.
+  Qed.
+End Pivot.
+
+(* if component k of the solution of B x = a vanishes, B with column k replaced by a is singular *)
+Lemma x_zero_singular n B k a (x : vec) : (k < n)%nat -> is_solution n B x a -> qnth x k == 0 ->
+  ~ nonsingular n (replace_col n B k a).
+Proof.
+  intros Hk S Z NS. destruct (nonsingular_inverse n _ NS) as [X HX].
+  pose proof (inverse_some_right_kernel n _ X HX) as RK.
+  assert (E : (fun j => if Nat.eqb j k then - (1) else qnth x j) k == 0).
+  { apply (RK (fun j => if Nat.eqb j k then - (1) else qnth x j)); [|exact Hk]. intros i Hi.
+    transitivity (sumn n (fun j => mget B i j * qnth x j + (if Nat.eqb k j then 1 else 0) * (- qnth a i - mget B i k * qnth x k))).
+    - apply sumn_ext. intros j Hj. unfold replace_col. rewrite mget_mkmat by assumption. rewrite (Nat.eqb_sym k j).
+      destruct (Nat.eqb_spec j k) as [->|_]; ring.
+    - rewrite sumn_add. rewrite (S i Hi). rewrite (sumn_delta_l n k (fun _ => - qnth a i - mget B i k * qnth x k) Hk).
+      rewrite Z. ring. }
+  cbv beta in E. rewrite Nat.eqb_refl in E. discriminate E.
+Qed.
+
+(* ================================================================================================= main theorems *)
+Lemma Qeq_bool_false_neq a b : Qeq_bool a b = false -> ~ a == b.
+Proof. intros H E. apply Qeq_bool_iff in E. rewrite E in H. discriminate. Qed.
+
+(* the update on a spike given as any sparse vector that denotes spike r a (explicit zeros allowed) *)
+Theorem update_spike_preserves r B col_p s a r1 :
+  struct_ok r = true -> represents r B -> (col_p < f_dim r)%nat ->
+  ind_lt (f_dim r) s = true -> (forall i, (i < f_dim r)%nat -> coefAt s i == qnth (spike r a) i) ->
+  update_spike r col_p s = Some r1 ->
+  struct_ok r1 = true /\ represents r1 (replace_col (f_dim r) B col_p a) /\ f_dim r1 = f_dim r.
+Proof.
+  intros S0 Rp Hcol Hs Hsp U. apply struct_ok_facts in S0. rewrite (update_spike_cases r col_p s S0 Hcol) in U.
+  destruct (Nat.ltb_spec (spike_rank (f_rperm r) s) (index_of col_p (f_cperm r))) as [|Hpq]; [discriminate|].
+  destruct (Qeq_bool _ 0) eqn:Ep in U; [discriminate|]. apply Qeq_bool_false_neq in Ep.
+  injection U as <-.
+  pose proof (sfacts_r' r col_p s S0 Hcol Hs Hpq Ep) as SF'.
+  split; [apply struct_ok_facts; exact SF'|]. split; [|reflexivity].
+  apply (frep_represents _ _ SF').
+  exact (update_frep r col_p s S0 Hcol Hs Hpq Ep B a Hsp (represents_frep r B S0 Rp)).
+Qed.
+
+Theorem update_spike_none_singular r B col_p s a :
+  struct_ok r = true -> represents r B -> (col_p < f_dim r)%nat ->
+  ind_lt (f_dim r) s = true -> (forall i, (i < f_dim r)%nat -> coefAt s i == qnth (spike r a) i) ->
+  update_spike r col_p s = None ->
+  ~ nonsingular (f_dim r) (replace_col (f_dim r) B col_p a).
+Proof.
+  intros S0 Rp Hcol Hs Hsp U. apply struct_ok_facts in S0. rewrite (update_spike_cases r col_p s S0 Hcol) in U.
+  apply (x_zero_singular (f_dim r) B col_p a (ftran_dense r a) Hcol (proj1 (proj2 Rp a))).
+  rewrite ftran_dense_split.
+  destruct (Nat.ltb_spec (spike_rank (f_rperm r) s) (index_of col_p (f_cperm r))) as [Hlt|Hpq].
+  - exact (x_low_rank r col_p s S0 Hcol a Hsp Hlt).
+  - destruct (Qeq_bool _ 0) eqn:Ep in U; [|discriminate]. apply Qeq_bool_iff in Ep.
+    exact (pivot_zero_x r col_p s S0 Hcol Hs a Hsp Hpq Ep).
+Qed.
+
+(* ILLfactor_ftran_update + ILLfactor_update: replace the column at basis position k by a *)
+Theorem update_preserves r B k a r1 :
+  struct_ok r = true -> represents r B -> (k < f_dim r)%nat -> update r k a = Some r1 ->
+  struct_ok r1 = true /\ represents r1 (replace_col (f_dim r) B k a) /\ f_dim r1 = f_dim r.
+Proof.
+  intros S0 Rp Hk U. unfold update in U.
+  apply (update_spike_preserves r B k (sparsify (f_dim r) (spike r a)) a r1 S0 Rp Hk (ind_lt_sparsify _ _)); [|exact U].
+  intros i Hi. apply coefAt_sparsify. exact Hi.
+Qed.
+
+Theorem update_none_singular r B k a :
+  struct_ok r = true -> represents r B -> (k < f_dim r)%nat -> update r k a = None ->
+  ~ nonsingular (f_dim r) (replace_col (f_dim r) B k a).
+Proof.
+  intros S0 Rp Hk U. unfold update in U.
+  apply (update_spike_none_singular r B k (sparsify (f_dim r) (spike r a)) a S0 Rp Hk (ind_lt_sparsify _ _)); [|exact U].
+  intros i Hi. apply coefAt_sparsify. exact Hi.
+Qed.
+
+(* the update is refused exactly for the singular replacements *)
+Theorem update_some_iff_nonsingular r B k a :
+  struct_ok r = true -> represents r B -> (k < f_dim r)%nat ->
+  ((exists r1, update r k a = Some r1) <-> nonsingular (f_dim r) (replace_col (f_dim r) B k a)).
+Proof.
+  intros S0 Rp Hk. split.
+  - intros [r1 U]. destruct (update_preserves r B k a r1 S0 Rp Hk U) as (_ & R1 & D). rewrite <- D.
+    rewrite <- D in R1. exact (represents_nonsingular r1 _ R1).
+  - intros NS. destruct (update r k a) as [r1|] eqn:U; [exists r1; reflexivity|].
+    exfalso. exact (update_none_singular r B k a S0 Rp Hk U NS).
+Qed.
+
+(* the new pivot of an accepted update is (B^-1 a)_k times the old pivot *)
+Theorem update_new_pivot r B k a r1 :
+  struct_ok r = true -> represents r B -> (k < f_dim r)%nat -> update r k a = Some r1 ->
+  let p := index_of k (f_cperm r) in
+  Ucf r1 (rk r p) k == Ucf r (rk r p) k * qnth (ftran_dense r a) k.
+Proof.
+  intros S0 Rp Hk U. cbv zeta. apply struct_ok_facts in S0. unfold update in U.
+  set (s := sparsify (f_dim r) (spike r a)) in *.
+  assert (Hs : ind_lt (f_dim r) s = true) by apply ind_lt_sparsify.
+  assert (Hsp : forall i, (i < f_dim r)%nat -> coefAt s i == qnth (spike r a) i) by (intros i Hi; apply coefAt_sparsify; exact Hi).
+  rewrite (update_spike_cases r k s S0 Hk) in U.
+  destruct (Nat.ltb_spec (spike_rank (f_rperm r) s) (index_of k (f_cperm r))) as [|Hpq]; [discriminate|].
+  destruct (Qeq_bool _ 0) eqn:Ep in U; [discriminate|]. apply Qeq_bool_false_neq in Ep. injection U as <-.
+  rewrite (Ucf'_eq r k s S0 Hk Hs Hpq (rk r (index_of k (f_cperm r))) k (rk_lt r S0 _ (p_lt r k S0 Hk)) Hk).
+  rewrite (U'_row r k s S0 Hk Hs Hpq k Hk).
+  rewrite ftran_dense_split. exact (new_pivot r k s S0 Hk Hs a Hsp Hpq).
+Qed.
+
+(* every history of accepted replacements: the representation the model ends in solves with the matrix the history ends in *)
+Theorem update_history_preserves : forall h r B r1,
+  struct_ok r = true -> represents r B -> (forall ka, In ka h -> (fst ka < f_dim r)%nat) ->
+  update_hist r h = Some r1 ->
+  struct_ok r1 = true /\ represents r1 (replace_hist (f_dim r) B h) /\ f_dim r1 = f_dim r.
+Proof.
+  induction h as [|[k a] h IH]; intros r B r1 S0 Rp Hh U; cbn [update_hist replace_hist] in *.
+  - injection U as <-. split; [exact S0|]. split; [exact Rp|reflexivity].
+  - destruct (update r k a) as [r2|] eqn:U2; [|discriminate].
+    destruct (update_preserves r B k a r2 S0 Rp (Hh (k, a) (or_introl eq_refl)) U2) as (S2 & R2 & D2).
+    assert (Hh2 : forall ka, In ka h -> (fst ka < f_dim r2)%nat) by (intros ka H; rewrite D2; apply Hh; right; exact H).
+    destruct (IH r2 _ r1 S2 R2 Hh2 U) as (S1 & R1 & D1).
+    rewrite D2 in R1, D1. split; [exact S1|]. split; [exact R1|exact D1].
+Qed.
+
+(* a dump accepted by check_repr and struct_ok is a starting point *)
+Corollary checked_history_solves r B h r1 :
+  struct_ok r = true -> check_repr r B = true -> (forall ka, In ka h -> (fst ka < f_dim r)%nat) ->
+  update_hist r h = Some r1 ->
+  forall b, is_solution (f_dim r) (replace_hist (f_dim r) B h) (ftran_dense r1 b) b /\
+            is_left_solution (f_dim r) (replace_hist (f_dim r) B h) (btran r1 b) b.
+Proof.
+  intros S0 C Hh U b. destruct (update_history_preserves h r B r1 S0 (check_repr_represents r B C) Hh U) as (_ & [_ R1] & D1).
+  specialize (R1 b). rewrite D1 in R1. exact R1.
+Qed.
